@@ -219,6 +219,9 @@ func c01RunHook(r *rand.Rand, sc c01Scenario, probeEvery bool, setup func(*dsSim
 			s.e.node.blocks.Save(s.e.ctx)
 			s.e.node.txs.Save(s.e.ctx)
 			s.e.node.peers.Save(s.e.ctx)
+			if _, held := s.e.node.blocks.Height(&startHash); !held && s.e.node.state.StartHeight() != -1 {
+				s.startOrphanedAtRestart = true
+			}
 			e2, err := newDD(ddOpt{store: store, startHash: startHash})
 			if err != nil {
 				s.find("C01", "C01/restart-load-failed", err.Error())
@@ -291,6 +294,7 @@ func runDSProperty(t *testing.T, prop string, rep *verifkit.Report, nShort, nLon
 		rep.Event("insync_callbacks_checked", int64(s.inSyncChecked))
 		rep.Event("getheaders_received_by_peer", int64(s.peer.getHeaders))
 		rep.Event("block_getdata_received_by_peer", int64(len(s.peer.getDataSeq)))
+		rep.Event("block_requests_judged_on_the_wire", int64(s.wireRequests))
 		if s.maxRequested >= 10 {
 			rep.Event("scenarios_reaching_full_window", 1)
 		}
